@@ -33,7 +33,9 @@ Set(env, v, x) == [y \in (DOMAIN env) \cup {v} |-> IF y = v THEN x ELSE env[y]]
 
 SeqOfT(t) == [i \in 1..Len(t) |-> t[i]]
 FileOf(s) == [method |-> s.method, lower |-> s.lower,
-              entries |-> [j \in 1..Len(s.entries) |-> [k |-> SeqOfT(s.entries[j].k), v |-> s.entries[j].v]]]
+              entries |-> [j \in 1..Len(s.entries) |->
+                            [k |-> SeqOfT(s.entries[j].k), v |-> s.entries[j].v,
+                             w |-> SeqOfT(s.entries[j].w), re |-> s.entries[j].re, p |-> SeqOfT(s.entries[j].p)]]]
 
 RECURSIVE RouteSteps(_, _, _, _, _)
 RouteSteps(steps, i, env, backends, req) ==
@@ -62,11 +64,17 @@ RuleRecs(g, h) ==
     {[id |-> r.s, h |-> r.h, p |-> PathChars(r.p), ty |-> r.ty] : r \in {x \in Routes(g) : x.h = h}}
 
 (* set of acceptable backends for a request: a service name, "_default" (--default-backend-service) or "_error404" *)
-Expected(g, defaultsvc, req, hostStr) ==
+(* wildStr: the wildcard hostname that covers the request's host ("*.h1.local" for a.h1.local; "" when there is none).  The
+   documentation of strict-host: with the default (false) "all matching wildcard hosts will be visited in order to try to match
+   the path" when the host itself has no path for the request. *)
+Expected(g, defaultsvc, req, hostStr, wildStr) ==
     LET eligible == req.scheme = "http" \/ hostStr \in TLSHosts(g)
         own  == IF eligible THEN Longest(RuleRecs(g, hostStr), hostStr, req.path) ELSE {}
+        weligible == wildStr # "" /\ (req.scheme = "http" \/ wildStr \in TLSHosts(g))
+        wild == IF weligible THEN Longest(RuleRecs(g, wildStr), wildStr, req.path) ELSE {}
         dflt == Longest(RuleRecs(g, "<default>"), "<default>", req.path)
     IN IF own # {} THEN {r.id : r \in own}
+       ELSE IF wild # {} THEN {r.id : r \in wild}
        ELSE IF dflt # {} THEN {r.id : r \in dflt}
        ELSE IF defaultsvc # "" THEN {"_default"} ELSE {"_error404"}
 ---------------------------------------------------------------------------
